@@ -68,6 +68,7 @@ var vschedFiles = []string{
 	"app/core/hydra/swamp/swamp_patch.go",
 	"app/core/hydra/swamp/swamp_patch_expired.go",
 	"app/core/hydra/swamp/swamp_bucket.go",
+	"app/core/hydra/swamp/bucket/bucket.go",
 	"app/core/hydra/swamp/vigil/vigil.go",
 	"app/core/hydra/swamp/treasure/guard/guard.go",
 	"app/core/hydra/lock/lock.go",
